@@ -371,6 +371,9 @@ class ToyGMul(ToyBase):
         G = P_of(case["G"])
         k, bf = int(case["k"]), case["bf"]
         exp = ec.mul_repeated(k, G, p, a, n)
+        # a second Generator on the same curve with ANOTHER base point is built first: tables derived from a base
+        # point must not leak between generator objects
+        _try(toy_generator, case["curve"], list(ec.mul_repeated(2, G, p, a, n)), 0)
         ok, g = _try(toy_generator, case["curve"], case["G"], bf)
         if not ok:
             return BAD("exception", "Generator constructed", g, clause="construct")
@@ -535,7 +538,13 @@ def prod_K(n):
     for i in list(range(8, 257, 8)) + [264]:
         ks.append(2 ** i)
         ks.append(2 ** i - 1)
-    return ks
+    # scalars e for which 3e sits just below / above a power of two (the double-and-add ladder works on 3e), and
+    # alternating bit patterns
+    for m in (48, 52, 53, 54, 55, 56, 64, 100, 128, 192, 254, 255, 256):
+        ks.append((2 ** m - 1) // 3)
+        ks.append((2 ** m + 2) // 3)
+        ks.append(2 * (2 ** m - 1) // 3)
+    return [k for i, k in enumerate(ks) if k not in ks[:i]]
 
 
 _PROD = {}
